@@ -34,9 +34,11 @@ Fixpoint read_operands (ws : list Z) (ins : list Z) : option (list Z) :=
   | [] => Some []
   | w :: r =>
       let n := Z.to_nat w in
-      if Nat.ltb (List.length ins) n then None
+      let pre := firstn n ins in
+      (* fewer than n bytes left (measured on the prefix only: linear time) *)
+      if Nat.ltb (List.length pre) n then None
       else match read_operands r (skipn n ins) with
-           | Some rest => Some (be_value (firstn n ins) :: rest)
+           | Some rest => Some (be_value pre :: rest)
            | None => None
            end
   end.
